@@ -66,4 +66,16 @@ func (spec *Spec) Validate() (err error)
 func (ra *ResponseAdaptor) Init()
   requires ra != nil && ra.spec != nil
   requires validated: specOK(ra.spec)
+
+// ---- C13 / C11: the kind's constructors (function literals of the package-level kind variable) ----
+// filters.NewSpec unmarshals the user's YAML into what DefaultSpec returns, and every generation of a pipeline
+// gets its filter from CreateInstance: both must hand out an object of their own on every call, and the
+// instance must be bound to exactly the spec it was created for
+func kind.DefaultSpec() (s filters.Spec)
+  flag allocates
+  ensures a-fresh-spec-of-this-kind: typeIs(s, "*Spec") && ifaceVal(s) != 0 && fresh(ptr(ifaceVal(s), "*Spec"))
+func kind.CreateInstance(spec filters.Spec) (f filters.Filter)
+  flag allocates
+  requires typeIs(spec, "*Spec")
+  ensures a-fresh-instance-bound-to-its-spec: typeIs(f, "*ResponseAdaptor") && ifaceVal(f) != 0 && fresh(ptr(ifaceVal(f), "*ResponseAdaptor")) && ref(ptr(ifaceVal(f), "*ResponseAdaptor").spec) == ifaceVal(spec)
 @*/
